@@ -394,10 +394,12 @@ void c14_dubins_impl(vf::Tape & t, vf::Ctx & ctx, int K)
     if (e_acc * R > 1e-6) ctx.label("dubins:acceleration-noise-in-a-very-short-segment");
 
     // optimality against the six classical words (only words whose reconstruction hits the target count)
-    const LD D = std::hypot(static_cast<LD>(x), static_cast<LD>(y)) / R;
-    const LD phi = std::atan2(static_cast<LD>(y), static_cast<LD>(x));
-    const LD al = mod2pi(-phi), be = mod2pi(static_cast<LD>(th) - phi);
-    LD lo = std::numeric_limits<LD>::infinity(), hi = lo;
+    bool hi_from_coinciding_circles = false;
+    auto bounds = [&](double bx, double by, double bth, LD & lo, LD & hi) {
+      const LD D = std::hypot(static_cast<LD>(bx), static_cast<LD>(by)) / R;
+      const LD phi = std::atan2(static_cast<LD>(by), static_cast<LD>(bx));
+      const LD al = mod2pi(-phi), be = mod2pi(static_cast<LD>(bth) - phi);
+      lo = hi = std::numeric_limits<LD>::infinity();
     auto consider = [&](const Word & w, bool strict) {
       LD ex, ey, eth;
       Word ww = w;
@@ -436,7 +438,9 @@ void c14_dubins_impl(vf::Tape & t, vf::Ctx & ctx, int K)
         if (v.p[0] > TWO_PI - 1e-6L) v.p[0] = 0;
         v.p[2] = 0;
         v.p[1] = 0;
+        const LD hi_before = hi;
         consider(v, w.p[1] <= 1e-12L && v.p[0] > 1e-7L);
+        if (hi < hi_before) hi_from_coinciding_circles = true;
       }
       // arc parameters within 1e-7 of 0 / 2pi may legitimately count either way
       for (int i = 0; i < 3; ++i)
@@ -445,6 +449,30 @@ void c14_dubins_impl(vf::Tape & t, vf::Ctx & ctx, int K)
           v.p[i] = 0;
           consider(v, false);
         }
+    }
+    };
+    const LD D = std::hypot(static_cast<LD>(x), static_cast<LD>(y)) / R;
+    LD lo, hi;
+    bounds(x, y, th, lo, hi);
+    // The minimum over the six words is discontinuous in the target at degenerate configurations (coinciding or tangent
+    // turning circles): a target 2e-8 ahead and 2e-15 to the left needs a full turn, the same target exactly ahead
+    // does not.  Where the reference upper bound moves by more than 1e-6 under perturbations of the target by 1e-9 the
+    // optimality clause has no sound reference and only the lower bound and the validity clauses are judged.
+    bool stable = hi < std::numeric_limits<LD>::infinity();
+    // (the documented special case "circles coincide: follow the circle" is judged although it is degenerate)
+    const bool documented_degenerate = hi_from_coinciding_circles;
+    if (!documented_degenerate) {
+      const double dp = 1e-9 * std::max(R, std::abs(x) + std::abs(y)), da = 1e-9;
+      const double px[6] = {dp, -dp, 0, 0, 0, 0}, py[6] = {0, 0, dp, -dp, 0, 0}, pa[6] = {0, 0, 0, 0, da, -da};
+      for (int k = 0; k < 6 && stable; ++k) {
+        LD l2, h2;
+        bounds(x + px[k], y + py[k], th + pa[k], l2, h2);
+        if (!(h2 < std::numeric_limits<LD>::infinity()) || std::abs(h2 - hi) > 1e-6L * (1 + D)) stable = false;
+      }
+    }
+    if (!stable) {
+      ctx.label("dubins:optimum-discontinuous-near-target(lower bound only)");
+      hi = std::numeric_limits<LD>::infinity();
     }
     const LD len = static_cast<LD>(c.t_max()) / R;
     const LD tol = 1e-7L * (1 + D);
